@@ -1,0 +1,23 @@
+//go:build verif
+// +build verif
+
+package mod_trust_clientip
+
+import (
+	"github.com/bfenetworks/bfe/bfe_basic"
+	"github.com/bfenetworks/bfe/bfe_util/ipdict"
+)
+
+// VerifAccept loads conf the way loadConfData does (ipItemsMake + trustTable.Update) and runs the
+// accept handler on session.  For the out-of-tree verification harness.
+func VerifAccept(conf TrustIPConf, session *bfe_basic.Session) error {
+	m := NewModuleTrustClientIP()
+	m.trustTable = ipdict.NewIPTable()
+	items, err := ipItemsMake(conf)
+	if err != nil {
+		return err
+	}
+	m.trustTable.Update(items)
+	m.acceptHandler(session)
+	return nil
+}
